@@ -7,6 +7,9 @@
     DAG vs oracle on the returned ADMG) and single-cause/single-effect ID verdicts are unchanged.
 (c) evans_simplify(G, latents=L) for every ADMG G and node subset L equals the latent projection of the
     latent-expanded DAG with L additionally latent.
+(d) the consumer of the pipeline (taheri_design_dag / taheri_design_admg, asked for every latent configuration):
+    each Result's mixed graph equals the latent projection for its latent set, its lists of latent and observed
+    nodes partition the inducible nodes, and its identifiability flag equals the oracle verdict on the projection.
 """
 
 from __future__ import annotations
@@ -61,6 +64,20 @@ def _universe(tier):
             items.append(("evans", g))
     for g in enum_O(4, max_edges=None if tier == "thorough" else 4):
         items.append(("evans", g))
+    # (d) experimental-design consumer: every labelled DAG on 3..4 nodes (thorough: name-ordered five-node DAGs too),
+    # every ordered (cause, effect); ADMG entry point on L(3) and O(4, <=4 edges)
+    for n in (3, 4):
+        for di in labelled_dags(n):
+            items.append(("design_dag", (NAMES5[:n], di)))
+    pairs = [(i, j) for i in range(5) for j in range(i + 1, 5)]
+    for mask in range(1 << len(pairs)):
+        di = tuple((NAMES5[i], NAMES5[j]) for k, (i, j) in enumerate(pairs) if mask >> k & 1)
+        if tier == "thorough" or len(di) <= 5:
+            items.append(("design_dag", (NAMES5, di)))
+    for g in enum_L(3):
+        items.append(("design_admg", g))
+    for g in enum_O(4, max_edges=None if tier == "thorough" else 4):
+        items.append(("design_admg", g))
     return items
 
 
@@ -82,7 +99,11 @@ def describe(tier):
         )
         + "; (c) evans_simplify with every additional latent subset on L(2), L(3), "
         + ("O(4)" if tier == "thorough" else "O(4, <=4 edges)")
-        + "; all observed pairs and conditioning sets; all single-cause/single-effect queries",
+        + "; all observed pairs and conditioning sets; all single-cause/single-effect queries"
+        + "; (d) taheri_design_dag on all labelled DAGs of 3..4 nodes and name-ordered five-node DAGs"
+        + (" " if tier == "thorough" else " with <=5 edges ")
+        + "x every ordered (cause, effect) x every latent configuration; taheri_design_admg on L(3), "
+        + ("O(4)" if tier == "thorough" else "O(4, <=4 edges)"),
         "rule": "state = (graph or tagged DAG); transition = one y0 conversion/simplification call compared with the "
         "definition-based latent projection and with separation / identifiability oracles",
         "assumptions": [
@@ -250,6 +271,93 @@ def check_evans(res: Res, g: G):
         res.violation("side_effect", {"mode": "evans", "graph": g.to_json()}, "evans_simplify modified the caller's graph")
 
 
+def _check_results(res, case, results, names, di, fixed_latent, inducible, cause, effect):
+    """results: list of taheri Result; (names, di): the DAG that was enumerated; fixed_latent: always-latent nodes."""
+    seen = set()
+    ok = True
+    for r in results:
+        res.transitions += 1
+        lat = {str(v) for v in r.latents}
+        obs = {str(v) for v in r.observed}
+        c2 = dict(case, latents=sorted(lat))
+        if lat & obs or (lat | obs) != set(inducible):
+            res.violation("design", c2, f"latent {sorted(lat)} and observed {sorted(obs)} do not partition the inducible nodes {sorted(inducible)}")
+            ok = False
+            continue
+        if frozenset(lat) in seen:
+            res.violation("design", c2, "latent configuration reported twice")
+            ok = False
+        seen.add(frozenset(lat))
+        all_lat = set(fixed_latent) | lat
+        proj = latent_projection(names, di, all_lat)
+        got = from_y0(r.admg)
+        want_nodes = set(names) - all_lat
+        if set(got.nodes) != want_nodes:
+            res.violation("observed_nodes_kept", c2, f"result graph has nodes {sorted(got.nodes)}, observed nodes are {sorted(want_nodes)}")
+            ok = False
+            continue
+        want_bi = {tuple(sorted(e)) for e in proj.bi}
+        if set(got.di) != set(proj.di) or set(got.bi) != want_bi:
+            res.violation("projection", c2, f"result graph has directed {list(got.di)}, bidirected {list(got.bi)}; latent projection has directed {sorted(proj.di)}, bidirected {sorted(want_bi)}")
+            ok = False
+        want = G(tuple(sorted(want_nodes)), tuple(sorted(proj.di)), tuple(sorted(want_bi)))
+        truth = identifiable_tp(want, [cause], [effect])
+        if bool(r.identifiable) != truth or (r.estimand is not None) != truth:
+            res.violation("id_verdict_preserved", c2, f"Result.identifiable={r.identifiable} (estimand {r.estimand}), oracle on the latent projection says {truth}")
+            ok = False
+    return ok, seen
+
+
+def check_design_dag(res: Res, names, di):
+    from y0.algorithm.taheri_design import taheri_design_dag
+
+    for cause, effect in itt.permutations(names, 2):
+        case = {"mode": "design_dag", "nodes": list(names), "di": [list(e) for e in di], "cause": cause, "effect": effect}
+        res.states += 1
+        inducible = [n for n in names if n not in (cause, effect)]
+        d = _lvdag(names, di, ())
+        before = _dag_key(d)
+        try:
+            results = taheri_design_dag(d, cause, effect, stop=len(inducible) + 1)
+        except Exception as e:  # noqa
+            res.violation("simplify_exception", case, f"taheri_design_dag raised {type(e).__name__}: {e}")
+            res.outcomes["design_exception"] += 1
+            continue
+        ok, seen = _check_results(res, case, results, names, di, (), inducible, cause, effect)
+        if len(seen) != 2 ** len(inducible):
+            res.violation("design", case, f"{len(seen)} latent configurations returned when all {2 ** len(inducible)} were requested")
+            ok = False
+        if _dag_key(d) != before:
+            res.violation("side_effect", case, "taheri_design_dag modified the caller's DAG")
+            ok = False
+        res.outcomes["design_ok" if ok else "design_wrong"] += 1
+
+
+def check_design_admg(res: Res, g: G):
+    from y0.algorithm.taheri_design import taheri_design_admg
+
+    y = to_y0(g)
+    before = snapshot(y)
+    nodes, di, lats = latent_expand(g)
+    for cause, effect in itt.permutations(g.nodes, 2):
+        case = {"mode": "design_admg", "graph": g.to_json(), "cause": cause, "effect": effect}
+        res.states += 1
+        inducible = [n for n in g.nodes if n not in (cause, effect)]
+        try:
+            results = taheri_design_admg(y, cause, effect, stop=len(inducible) + 1)
+        except Exception as e:  # noqa
+            res.violation("simplify_exception", case, f"taheri_design_admg raised {type(e).__name__}: {e}")
+            res.outcomes["design_exception"] += 1
+            continue
+        ok, seen = _check_results(res, case, results, nodes, di, lats, inducible, cause, effect)
+        if len(seen) != 2 ** len(inducible):
+            res.violation("design", case, f"{len(seen)} latent configurations returned when all {2 ** len(inducible)} were requested")
+            ok = False
+        res.outcomes["design_ok" if ok else "design_wrong"] += 1
+    if snapshot(y) != before:
+        res.violation("side_effect", {"mode": "design_admg", "graph": g.to_json()}, "taheri_design_admg modified the caller's graph")
+
+
 def work(shard, tier, seed):
     lo, hi = shard
     res = Res()
@@ -258,6 +366,10 @@ def work(shard, tier, seed):
             check_roundtrip(res, item)
         elif mode == "simplify":
             check_simplify(res, *item)
+        elif mode == "design_dag":
+            check_design_dag(res, *item)
+        elif mode == "design_admg":
+            check_design_admg(res, item)
         else:
             check_evans(res, item)
     return res
@@ -269,6 +381,10 @@ def replay(case, clause=None):
         check_roundtrip(res, G.from_json(case["graph"]))
     elif case["mode"] == "simplify":
         check_simplify(res, tuple(case["nodes"]), tuple(tuple(e) for e in case["di"]), tuple(case["latent"]))
+    elif case["mode"] == "design_dag":
+        check_design_dag(res, tuple(case["nodes"]), tuple(tuple(e) for e in case["di"]))
+    elif case["mode"] == "design_admg":
+        check_design_admg(res, G.from_json(case["graph"]))
     else:
         check_evans(res, G.from_json(case["graph"]))
     return [v for v in res.violations if clause is None or v["clause"] == clause]
